@@ -164,8 +164,10 @@ def default_periodic_rule(ctx, rule, p):
     lv_ = [n.target.id for n in own_walk(fa.node) if isinstance(n, ast.For) and ast.unparse(n.iter) == fa.params[1] and isinstance(n.target, ast.Name)
            and any(c in list(ast.walk(n)) for c in ndc_)]
     key_ = f"{fa.params[3]}[{lv_[0]}]" if lv_ else "?"
-    okp = any(d[0] == "unpack" and ast.unparse(d[1]) == key_ and d[2] == 0 for d in la.get(n_per, [])) \
-        and any(d[0] == "unpack" and ast.unparse(d[1]) == key_ and d[2] == 1 for d in la.get(n_dis, []))
+    # the entry of that variable: mapping[v] (under a membership guard) or mapping.get(v, (None, None))
+    keys_ = (key_, f"{fa.params[3]}.get({lv_[0]}, (None, None))" if lv_ else "?")
+    okp = any(d[0] == "unpack" and ast.unparse(d[1]) in keys_ and d[2] == 0 for d in la.get(n_per, [])) \
+        and any(d[0] == "unpack" and ast.unparse(d[1]) in keys_ and d[2] == 1 for d in la.get(n_dis, []))
     ctx.expect(okp, rule, "interpolate_dataset_along_axis[(period, discont) from the mapping]",
                "a variable's period and discontinuity are read from the mapping entry of that variable", fa.loc())
     pcoord = [n for n in own_walk(fa.node) if isinstance(n, ast.Dict) and {
